@@ -19,7 +19,7 @@ type gen struct {
 	n int
 }
 
-func (g *gen) pick(n int) int        { return rapid.IntRange(0, n-1).Draw(g.t, "k") }
+func (g *gen) pick(n int) int         { return rapid.IntRange(0, n-1).Draw(g.t, "k") }
 func (g *gen) pct(p int) bool         { return rapid.IntRange(0, 99).Draw(g.t, "p") < p }
 func (g *gen) of(xs ...string) string { return xs[g.pick(len(xs))] }
 func (g *gen) fresh(p string) string  { g.n++; return fmt.Sprintf("%s%d", p, g.n) }
